@@ -50,20 +50,21 @@ PROPS["C09"] = {
     "level": "proof",
     "technique": "Lean 4 proof (loop invariants for the run-length walks, binary-search invariants over the cached cumulative arrays) + exhaustive-per-table correspondence",
     "level_text": "Model lean/Mp4ff/Model/SampleTables.lean transcribes every query loop for loop (incl. the three binary searches, the cached FirstSampleNr/EndSampleNr and uint32/uint64 arithmetic) next to the naive per-sample expansion; theorems in Props/C09.lean; tie = every query on every sample number / interval / chunk / time of randomly generated consistent tables, real boxes built through the encoders+decoders.",
-    "level_note": "Trusted: Lean kernel, allowed axioms, hand transcription validated by correspondence. CopySampleData is covered under C08.",
+    "level_note": "Trusted: Lean kernel, allowed axioms, hand transcription validated by correspondence. CopySampleData's copy loop is modelled under C08; here it is queried directly (both decode modes, files with one or several mdat boxes) against the bytes the tables point to.",
     "trusted": ["Model/SampleTables.lean hand transcription of mp4/stts.go ctts.go stsc.go stsz.go stco.go co64.go stss.go sdtp.go trak.go"],
-    "unmodelled": ["File.CopySampleData (C08)", "GetTimeCode (time.Duration convenience)"],
+    "unmodelled": ["File.CopySampleData (modelled under C08; direct oracle here)", "GetTimeCode (time.Duration convenience)"],
     "partial": [],
     "assumptions": ["tables are consistent (ISO 14496-12): first_chunk strictly increasing from 1, samples_per_chunk > 0, stss strictly increasing, totals agree, sums below 2^32 / 2^64"],
 }
 
 PROPS["C08"] = {
     "level": "proof",
+    "tools": ["examples/segmenter"],
     "technique": "Lean 4 proof (buffered copy loop invariant for every work-buffer length; range arithmetic) + model-vs-code correspondence + whole-file lazy/eager comparison",
-    "level_text": "Model lean/Mp4ff/Model/Mdat.lean transcribes ReadData/CopyData (both modes), the lazy header-only Encode and the CopySampleData chunk walk with its work-buffer refill loop; theorems in Props/C08.lean (all ranges, all work-buffer lengths); tie = correspondence on synthetic files with boundary ranges and on generated sample tables, plus both-mode decoding of generated progressive files and the repository's test files (same tree, sizes, positions).",
-    "level_note": "Trusted: Lean kernel, allowed axioms, hand transcription validated by correspondence; io.ReadSeeker over a file behaves like a cursor over a byte list (Read delivers min(len, available)). The two other copies of the chunk walk (segmenter, mp4ff-crop) are exercised through C11/C10 binary runs.",
+    "level_text": "Model lean/Mp4ff/Model/Mdat.lean transcribes ReadData/CopyData (both modes), the lazy header-only Encode and the CopySampleData chunk walk with its work-buffer refill loop; theorems in Props/C08.lean (all ranges, all work-buffer lengths); tie = correspondence on synthetic files with boundary ranges and on generated sample tables, plus both-mode decoding of generated progressive files and the repository's test files (same tree, sizes, positions). The segmenter example is built from the working tree on every run and run with and without -lazy on generated progressive files of varied chunk layouts: byte-identical output files, bytes behind every mdat header = what header and truns announce = the samples' bytes in the input; its lazy write path (copyMediaData, a second copy of the CopySampleData chunk walk) is tied to the model's chunk walk (op `seg.copy`: model byte ranges of the segment's sample interval vs the bytes the tool copied behind the header-only mdat).",
+    "level_note": "Trusted: Lean kernel, allowed axioms, hand transcription validated by correspondence; io.ReadSeeker over a file behaves like a cursor over a byte list (Read delivers min(len, available)). The segmenter is package main, observed through its output files (the replay re-runs the binary). The third copy of the chunk walk (mp4ff-crop writeMdat) is exercised through C10 binary runs.",
     "trusted": ["Model/Mdat.lean hand transcription of mp4/mdat.go, mp4/file.go CopySampleData, mp4/box.go DecodeBoxLazyMdat"],
-    "unmodelled": ["DecodeFile top-level loop in lazy mode (whole-file oracle only)", "segmenter copyMediaData / crop writeMdat (C11/C10)"],
+    "unmodelled": ["DecodeFile top-level loop in lazy mode (whole-file oracle only)", "segmenter GetFullSamplesForInterval (-m -lazy) and fragment writing (direct oracle: both modes byte-identical); crop writeMdat (C10)"],
     "partial": [],
     "assumptions": ["ranges lie inside the mdat payload (the property's 'valid' ranges)"],
 }
@@ -167,11 +168,11 @@ PROPS["C20"] = {
     "level": "proof",
     "race": True,
     "technique": "Lean 4 proof (non-interference: in a machine whose steps touch only goroutine-private state every interleaving equals running alone) + source facts regenerated by the translator and closed by the kernel (no package-level variable is written outside the registry functions) + race-detector harness tying the machine's assumption to the code",
-    "level_text": "Theorems in Props/C20.lean: interleaving_independent / schedules_equivalent for the abstract machine of Model/Conc.lean (any number of goroutines, any schedule), hidden_state_is_observable (a package-level cache breaks it), and no_hidden_state / globals_are_tables_or_errors about the list of package-level variables and their writers that /verif/extract regenerates from the Go sources on every run. The assumption of the machine (a step reads the shared input and writes only its own structures) is tied to the code by running every task alone and then all tasks in parallel goroutines under the Go race detector on shared read-only inputs, comparing per-goroutine digests with the solo digests and the input bytes before/after.",
+    "level_text": "Theorems in Props/C20.lean: interleaving_independent / schedules_equivalent for the abstract machine of Model/Conc.lean (any number of goroutines, any schedule), hidden_state_is_observable (a package-level cache breaks it), and no_hidden_state / globals_are_tables_or_errors about the list of package-level variables and their writers that /verif/extract regenerates from the Go sources on every run. The assumption of the machine (a step reads the shared input and writes only its own structures) is tied to the code by running every task alone and then all tasks in parallel goroutines under the Go race detector on shared read-only inputs, comparing per-goroutine digests with the solo digests and the input bytes before/after (every input slice is a window with cap > len into an arena with guard bytes behind it, so a write or append through a sub-slice a decoder retained is seen; protected streams cover cenc/cbcs with 8- and 16-byte per-sample and constant IVs, decoded from separate shared init and media-segment buffers with both decoder paths).",
     "level_note": "Trusted: Lean kernel, allowed axioms, the go/ast extractor (writes through pointers obtained from a package-level variable are flagged as address-taken), the Go race detector (happens-before, reports only races that occur in the explored schedules).",
     "trusted": ["/verif/extract globals pass (go/ast): assignments, inc/dec, address-taking and method calls on package-level variables", "Go race detector"],
     "unmodelled": ["the Go memory model itself (the abstract machine assumes sequentially consistent private state)", "races inside the standard library"],
-    "partial": ["the step-locality assumption of the abstract machine is validated by the race harness on the explored schedules and inputs, not proved from the Go source"],
+    "partial": ["the step-locality assumption of the abstract machine is validated by the race harness on the explored schedules and inputs, not proved from the Go source", "no source fact lists the functions that write or append through a slice field a slice-reader decoder filled from the input buffer (needs type and alias information beyond the go/ast pass); such writes are found only when a task reaches them"],
     "assumptions": ["the box-decoder registries are not modified while goroutines run (as the property states)"],
 }
 
